@@ -15,6 +15,8 @@ CHECKS['C11'] = dict(text='Bounded symbolic execution (z3) of the MIR of do_comm
              note='run_pipeline(capture) is stubbed; do_command_substitution is driven directly on one token. Every ok-leaf is validated by running the native function with a helper program that prints the model\'s output bytes. Known finding: two $(...) in one word.', design='6/C11')
 CHECKS['C12'] = dict(text='Bounded symbolic execution (z3) of the MIR of expand_brace (brace words of <= 5, thorough 6 fully symbolic characters against a reference brace expander; malformed words: crash/hang freedom only), expand_brace_range (symbolic digits and signs, optional step, symbolic text around the braces, i32 extremes as directed cases; arithmetic-sequence reference), expand_home (symbolic HOME) and expand_glob (glob stub returning up to 2/3 symbolic names incl. hidden and blank-containing ones), each on a token list with neighbours so that word order is part of the oracle.',
              note='Passes are driven directly; the glob matcher itself is outside (stub). Every brace/range/tilde leaf is validated against the native function.', design='6/C12')
+CHECKS['C13'] = dict(text='Bounded symbolic execution (z3) of the MIR of CommandLine::from_line end to end with the three expansion channels delivering a symbolic text of 1..3 (thorough 4) characters: value of $X / ${X} (env stub), stdout of $(..) / backquotes (capture stub), a file name matched by `*` (glob stub); unquoted and double-quoted, sole/first/last argument; oracle: one command, no background, no redirection, neighbours unchanged, the text is exactly one argument.',
+             note='Produced characters exclude those that legitimately trigger later expansions (* ? [ ] { } ~ $ ` \\ quotes). Every leaf is validated / every violation replayed with the native from_line (helper program prints the output bytes, scratch directory holds the file). Known finding (5 effect kinds): unquoted results are re-read as syntax.', design='6/C13')
 NA = {}
 ALL = ['C%02d' % i for i in range(1, 21)]
 m = dict(version=1, setup_cmd='./setup.sh',
